@@ -323,6 +323,27 @@ def run(chk: Check) -> None:
                                   {"op": "echo", "request": q, "packet": m, "gwy": g})
         if done <= 3:
             chk.sample({"request": q, "echo": echo, "reply": reply, "tx_header": q_tx, "rx_header": q_rx})
+    # ---- 3. through the real protocol: the sender is handed the echo / the proper reply of every command of the pool, also of
+    #         those whose echo or reply the message layer (its schema of verbs, indexes and shapes) does not accept ---------------
+    from .. import qos
+
+    for i in [k for k in range(len(qos.POOL)) if qos.is_plain(k) and qos.POOL[k][1] is not None]:
+        for wfr in (None, True):
+            ep = qos.Episode()
+            ep.probe = False
+            ep.mode = False        # (QoS on: a caller who asks to wait for the reply is given the reply)
+            ep.calls = [{"t": 0.0, "cmd": i, "prio": 0, "max_retries": 3, "timeout": 20.0, "wfr": wfr}]
+            res = qos.run_episode(ep)
+            chk.evaluations += 1
+            chk.nontrivial.add(("protocol", i, wfr))
+            q, reply = qos.POOL[i]
+            want = reply if (wfr or q[:2] == "RQ" and wfr is None and False) else q.replace(qos.HGI, qos.GWY)
+            got = res.outcomes.get(0, (None, "none", ""))
+            chk.count("protocol.exchange." + ("msg-layer-rejects" if i in qos.MSG_REJECTED else "plain"))
+            if got[1] != "ok" or want not in got[2]:
+                chk.violation(("protocol.reply_not_recognised:" if wfr else "protocol.echo_not_recognised:") + q[37:41] + ("" if i not in qos.MSG_REJECTED else ".msg-layer-rejects"),
+                              f"send_cmd({q!r}, wait_for_reply={wfr}) with the echo and the reply {reply!r} delivered ended with {got[1]} {got[2][:90]!r}, "
+                              f"not with {'the reply' if wfr else 'the echo'}", {"op": "protocol", "episode": ep.to_json()})
     D.run()
 
 
